@@ -169,6 +169,22 @@ def pure_murmur2(byte_array, seed=0x9747B28C):
     return h
 '''), "proved")   # negative indexes: py_index / py_index_app_neg
 
+V["coercion_helper"] = (module_with(ORIG[START:END].replace(
+    """    if not isinstance(byte_array, bytearray):
+        raise TypeError("Type: %r of 'byte_array' arg must be 'bytearray'", type(byte_array))
+""", """    byte_array = _as_bytearray(byte_array)
+"""), prelude='''
+def _as_bytearray(key):
+    """Coerce a key into the bytearray the hash works on"""
+    if isinstance(key, str):
+        return bytearray(key, "UTF-8")
+    if isinstance(key, bytes):
+        return bytearray(key)
+    if isinstance(key, bytearray):
+        return key
+    raise TypeError("Partition key {!r} must be str, bytes, or bytearray, not {}".format(key, type(key)))
+'''), "proved")
+
 V["carried_k"] = (module_with('''
 def pure_murmur2(byte_array, seed=0x9747B28C):
     if not isinstance(byte_array, bytearray):
